@@ -4,8 +4,9 @@
 (*                                                                         *)
 (* Code                                   action / operator here           *)
 (* -------------------------------------  -------------------------------- *)
-(* randoms.py  RandomsBase.__init__       Init (gen = Reseeded(.., seed))   *)
-(*             RandomsBase.reseed(seed)   Reseed(s)  (s = 0: reseed())     *)
+(* randoms.py  RandomsBase.__init__       Construct(s)  BoxRandoms(..,     *)
+(*                                          seed=s): self.reseed(s)        *)
+(*             RandomsBase.reseed(seed)   Reseed(s)  (s = NoSeed: reseed())*)
 (*             RandomsBase.__call__(n)    Call(n)   = _draw_coords(n);     *)
 (*                                          _draw_attributes(n) : one      *)
 (*                                          stream segment of "size n"     *)
@@ -42,8 +43,17 @@
 (* <<seed, 0, 0, <<n1..nk>>, n>>.  The driver realises every token on a     *)
 (* fresh real generator and demands bit-identical arrays.                  *)
 (*                                                                         *)
+(* The seed VALUE is part of the case analysis: Seeds contains the real     *)
+(* seed 0 (the falsy edge value; "seed is None" and "not seed" differ      *)
+(* exactly there) next to abstract non-zero seeds (mapped to real non-zero *)
+(* seeds by the driver).  "No seed given" (reseed() / reseed(None)) is the *)
+(* separate value NoSeed = -1, never a member of Seeds.  Every seed of     *)
+(* InitSeeds is used for construction, every seed of Seeds and NoSeed for  *)
+(* an explicit reseed at any point of a history.                           *)
+(*                                                                         *)
 (* A behaviour = one scenario (generator kind, num_randoms N, chunksize C, *)
-(* patch_num k, probe_size p; chosen in Init) + a history of at most       *)
+(* patch_num k, probe_size p; chosen in Init) + the construction of the    *)
+(* generator with a seed of InitSeeds + a history of at most               *)
 (* MaxOps public operations.  hist records per operation the expected      *)
 (* outcome, the expected tokens and the expected generator events          *)
 (* (reseed / call) - this is what the driver replays and compares.         *)
@@ -63,13 +73,19 @@
 (*                            chosen default probe is limited to N         *)
 (*   "GlobalPixelRng"         HealPixRandoms draws the pixels with         *)
 (*                            np.random.choice (global RNG) (code as found)*)
+(*   "FalsySeedIsNoSeed"      reseed(seed) tests the truth value of seed   *)
+(*                            (`seed or self.seed`) instead of `is None`:  *)
+(*                            reseed(0) keeps the old seed, the            *)
+(*                            constructor with seed=0 raises AttributeError*)
+(*                            (self.seed does not exist yet)  (seed C16-E) *)
 (***************************************************************************)
-EXTENDS Naturals, Sequences, FiniteSets, TLC
+EXTENDS Integers, Sequences, FiniteSets, TLC
 
 CONSTANTS Scenarios,    \* set of [kind, N, C, k, p]; C = 0: chunksize=None,
                         \*   k = 0: patch_centers given, k > 0: patch_num=k,
                         \*   p = 0: probe_size left at its default (-1)
-          Seeds,        \* abstract seeds (positive); the generator starts with seed 1
+          Seeds,        \* seeds: 0 is the real seed 0, s > 0 abstract non-zero seeds
+          InitSeeds,    \* seeds used for the construction Randoms(..., seed=s)
           CallSizes,    \* sizes of direct calls gen(n)
           FrameSizes,   \* sizes of gen.generate_dataframe(n)
           ProbeSizes,   \* sizes of direct reader.get_probe(n)
@@ -84,7 +100,8 @@ VARIABLES sc,     \* scenario (constant during a behaviour)
           glob,   \* number of draws taken from the process-global RNG so far
           rd,     \* the reader in use: [st, N, C, pos]; st in none|ready|iter|done
           urd,    \* the user's RandomReader while from_random runs on its own one
-          pc,     \* idle | fr_centers | fr_iter | fr_for | fr_next   (inside from_random)
+          pc,     \* new (no generator yet) | dead (constructor raised) |
+                  \* idle | fr_centers | fr_iter | fr_for | fr_next   (inside from_random)
           hist,   \* sequence of operation entries
           nops    \* public operations performed
 
@@ -95,10 +112,17 @@ Dev(d) == d \in Deviations
 ---------------------------------------------------------------------------
 (* generator *)
 
-Reseeded(g, s) ==    \* RandomsBase.reseed(s), s = 0 stands for None
-    [seed  |-> IF s = 0 THEN g.seed ELSE s,
-     spawn |-> IF Dev("StatefulSeeder") THEN (IF s = 0 THEN g.spawn + 1 ELSE 0) ELSE 0,
+NoSeed == -1         \* reseed() / reseed(None): no seed given (not a seed: NoSeed \notin Seeds)
+
+(* does reseed(s) keep the stored seed?  `if seed is not None` in the design *)
+KeepsSeed(s) == s = NoSeed \/ (Dev("FalsySeedIsNoSeed") /\ s = 0)
+
+Reseeded(g, s) ==    \* RandomsBase.reseed(s)
+    [seed  |-> IF KeepsSeed(s) THEN g.seed ELSE s,
+     spawn |-> IF Dev("StatefulSeeder") THEN (IF s = NoSeed THEN g.spawn + 1 ELSE 0) ELSE 0,
      used  |-> <<>>]
+
+NoGen == [seed |-> NoSeed, spawn |-> 0, used |-> <<>>]      \* before the constructor ran
 
 GlobalRng == sc.kind = "healpix" /\ Dev("GlobalPixelRng")
 
@@ -146,13 +170,29 @@ SetLast(e)  == [hist EXCEPT ![Len(hist)] = e]
 Idle(o) == pc = "idle" /\ nops < MaxOps /\ o \in Ops
 
 Init == /\ sc \in Scenarios
-        /\ gen = [seed |-> 1, spawn |-> 0, used |-> <<>>]     \* Randoms(..., seed=1)
+        /\ gen = NoGen
         /\ glob = 0
         /\ rd = NoReader
         /\ urd = NoReader
-        /\ pc = "idle"
+        /\ pc = "new"
         /\ hist = <<>>
         /\ nops = 0
+
+---------------------------------------------------------------------------
+(* construction: gen = BoxRandoms(..., seed=s) / HealPixRandoms(..., seed=s);  *)
+(* RandomsBase.__init__ calls self.reseed(s).  Not counted in nops (every      *)
+(* history starts with it).                                                    *)
+
+Construct(s) ==
+    /\ pc = "new"
+    /\ IF KeepsSeed(s)      \* only under FalsySeedIsNoSeed: self.seed read before it exists
+         THEN /\ hist' = <<Entry("new", s, "AttributeError", <<>>, <<>>, <<EvReseed(s)>>)>>
+              /\ pc' = "dead"
+              /\ UNCHANGED gen
+         ELSE /\ hist' = <<Entry("new", s, "ok", <<>>, <<>>, <<EvReseed(s)>>)>>
+              /\ gen' = Reseeded(gen, s)
+              /\ pc' = "idle"
+    /\ UNCHANGED <<sc, glob, rd, urd, nops>>
 
 ---------------------------------------------------------------------------
 (* direct use of the generator *)
@@ -166,7 +206,7 @@ DrawOp(o, n) ==
 Call(n)  == DrawOp("call", n)       \* gen(n)
 Frame(n) == DrawOp("frame", n)      \* gen.generate_dataframe(n)
 
-Reseed(s) ==                        \* gen.reseed(s) / gen.reseed()
+Reseed(s) ==                        \* gen.reseed(s) / gen.reseed() (s = NoSeed)
     /\ Idle("reseed") /\ rd.st # "iter"
     /\ hist' = Append(hist, Entry("reseed", s, "ok", <<>>, <<>>, <<EvReseed(s)>>))
     /\ gen' = Reseeded(gen, s) /\ nops' = nops + 1
@@ -178,8 +218,8 @@ Reseed(s) ==                        \* gen.reseed(s) / gen.reseed()
 NewReader ==                        \* RandomReader(gen, N, C)
     /\ Idle("reader") /\ rd.st # "iter"
     /\ rd' = [st |-> "ready", N |-> sc.N, C |-> CEff(sc.C), pos |-> 0]
-    /\ gen' = Reseeded(gen, 0)
-    /\ hist' = Append(hist, Entry("reader", sc.N, "ok", <<>>, <<>>, <<EvReseed(0)>>))
+    /\ gen' = Reseeded(gen, NoSeed)
+    /\ hist' = Append(hist, Entry("reader", sc.N, "ok", <<>>, <<>>, <<EvReseed(NoSeed)>>))
     /\ nops' = nops + 1
     /\ UNCHANGED <<sc, glob, urd, pc>>
 
@@ -190,16 +230,16 @@ Probe(n) ==                         \* reader.get_probe(n)
          THEN /\ hist' = Append(hist, Entry("probe", n, "ValueError", <<>>, <<>>, <<>>))
               /\ UNCHANGED <<gen, glob>>
          ELSE LET m == ProbeDrawn(n, rd.N)
-                  g == IF Dev("NoReseedAtProbe") THEN gen ELSE Reseeded(gen, 0)
+                  g == IF Dev("NoReseedAtProbe") THEN gen ELSE Reseeded(gen, NoSeed)
               IN /\ hist' = Append(hist, Entry("probe", n, "ok", <<Tok(g, m)>>, <<>>,
-                                     (IF Dev("NoReseedAtProbe") THEN <<>> ELSE <<EvReseed(0)>>)
+                                     (IF Dev("NoReseedAtProbe") THEN <<>> ELSE <<EvReseed(NoSeed)>>)
                                         \o <<EvCall(m)>>))
                  /\ gen' = Drawn(g, m) /\ glob' = GlobAfter
     /\ UNCHANGED <<sc, rd, urd, pc>>
 
 IterReset(r) == [r EXCEPT !.st = "iter", !.pos = IF Dev("NoPosResetAtIter") THEN @ ELSE 0]
-IterGen      == IF Dev("NoReseedAtIter") THEN gen ELSE Reseeded(gen, 0)
-IterEv       == IF Dev("NoReseedAtIter") THEN <<>> ELSE <<EvReseed(0)>>
+IterGen      == IF Dev("NoReseedAtIter") THEN gen ELSE Reseeded(gen, NoSeed)
+IterEv       == IF Dev("NoReseedAtIter") THEN <<>> ELSE <<EvReseed(NoSeed)>>
 
 IterStart ==                        \* it = iter(reader)
     /\ Idle("iter") /\ rd.st \in {"ready", "done"}
@@ -248,8 +288,8 @@ FRStart ==                          \* rand_iter = RandomReader(generator, num_r
     /\ Idle("from_random") /\ rd.st # "iter"
     /\ urd' = rd
     /\ rd' = [st |-> "ready", N |-> sc.N, C |-> CEff(sc.C), pos |-> 0]
-    /\ gen' = Reseeded(gen, 0)
-    /\ hist' = Append(hist, Entry("from_random", sc.N, "running", <<>>, <<>>, <<EvReseed(0)>>))
+    /\ gen' = Reseeded(gen, NoSeed)
+    /\ hist' = Append(hist, Entry("from_random", sc.N, "running", <<>>, <<>>, <<EvReseed(NoSeed)>>))
     /\ pc' = IF sc.k > 0 THEN "fr_centers" ELSE "fr_iter"
     /\ nops' = nops + 1
     /\ UNCHANGED <<sc, glob>>
@@ -263,9 +303,9 @@ FRCenters ==                        \* create_patch_centers(rand_iter, patch_num
               /\ rd' = urd
               /\ UNCHANGED <<gen, glob>>
          ELSE LET m == ProbeDrawn(n, rd.N)
-                  g == IF Dev("NoReseedAtProbe") THEN gen ELSE Reseeded(gen, 0)
+                  g == IF Dev("NoReseedAtProbe") THEN gen ELSE Reseeded(gen, NoSeed)
               IN /\ hist' = SetLast([Last EXCEPT !.pr = <<Tok(g, m)>>,
-                                                 !.ev = @ \o (IF Dev("NoReseedAtProbe") THEN <<>> ELSE <<EvReseed(0)>>)
+                                                 !.ev = @ \o (IF Dev("NoReseedAtProbe") THEN <<>> ELSE <<EvReseed(NoSeed)>>)
                                                           \o <<EvCall(m)>>])
                  /\ gen' = Drawn(g, m) /\ glob' = GlobAfter
                  /\ pc' = "fr_iter"
@@ -297,13 +337,15 @@ FRStop ==                           \* StopIteration: finalize, load_patches
 
 SomeCall   == \E n \in CallSizes : Call(n)
 SomeFrame  == \E n \in FrameSizes : Frame(n)
-SomeReseed == \E s \in Seeds \cup {0} : Reseed(s)
+SomeReseed == \E s \in Seeds \cup {NoSeed} : Reseed(s)
+SomeConstruct == \E s \in InitSeeds : Construct(s)
 SomeProbe  == \E n \in ProbeSizes : Probe(n)
 
 Quiescent == pc = "idle" /\ rd.st # "iter"
-Done      == nops = MaxOps /\ Quiescent
+Done      == (nops = MaxOps /\ Quiescent) \/ pc = "dead"
 
-Next == \/ SomeCall \/ SomeFrame \/ SomeReseed
+Next == \/ SomeConstruct
+        \/ SomeCall \/ SomeFrame \/ SomeReseed
         \/ NewReader \/ SomeProbe \/ IterStart \/ NextChunk \/ StopPass \/ Abandon
         \/ FRStart \/ FRCenters \/ FRIter \/ FRFor \/ FRNext \/ FRStop
         \/ (Done /\ UNCHANGED vars)
@@ -349,12 +391,28 @@ Reproducible ==
             e.res[j] = FreshTok(e.res[j][1], Rep(CEf, j - 1), e.res[j][5]))
       /\ (Len(e.pr) > 0 => e.pr[1] = FreshTok(e.pr[1][1], <<>>, e.pr[1][5]))
 
-(* reseed(s) followed by a draw reproduces the first draw of Randoms(seed=s) *)
+(* reseed(s) followed by a draw reproduces the first draw of Randoms(seed=s); *)
+(* so does the first draw after the construction                             *)
 ReseedRestores ==
     \A i \in 2..Len(hist) :
-      (hist[i - 1].op = "reseed" /\ hist[i].op \in {"call", "frame"})
+      (hist[i - 1].op \in {"reseed", "new"} /\ hist[i].op \in {"call", "frame"})
         => /\ hist[i].res[1] = FreshTok(hist[i].res[1][1], <<>>, hist[i].a)
-           /\ (hist[i - 1].a # 0 => hist[i].res[1][1] = hist[i - 1].a)
+           /\ (hist[i - 1].a # NoSeed => hist[i].res[1][1] = hist[i - 1].a)
+
+(* "reproducible by seed": every output carries the seed the user gave LAST  *)
+(* (constructor or reseed(s) with a seed; 0 is a seed like any other)        *)
+SeedGiven(j)     == hist[j].op \in {"new", "reseed"} /\ hist[j].a # NoSeed
+RequestedSeed(i) == LET js == {j \in 1..(i - 1) : SeedGiven(j)}
+                        m  == CHOOSE j \in js : \A l \in js : l <= j
+                    IN hist[m].a
+SeedAsRequested ==
+    \A i \in 2..Len(hist) : LET e == hist[i] IN
+      /\ \A j \in 1..Len(e.res) : e.res[j][1] = RequestedSeed(i)
+      /\ \A j \in 1..Len(e.pr) : e.pr[j][1] = RequestedSeed(i)
+
+(* the constructor accepts every seed *)
+ConstructNeverRejected ==
+    \A i \in 1..Len(hist) : hist[i].op = "new" => hist[i].out = "ok"
 
 (* nothing but the seed-controlled stream enters any output *)
 SeedControlled ==
@@ -372,11 +430,14 @@ CreateNeverRejected ==
       hist[i].op = "from_random" => (hist[i].out \in {"running", "ok"} \/ UserProbeTooLarge)
 
 TypeOK == /\ sc \in Scenarios
-          /\ gen.seed \in Seeds /\ gen.spawn \in Nat /\ glob \in Nat
+          /\ InitSeeds \subseteq Seeds /\ NoSeed \notin Seeds
+          /\ gen.seed \in Seeds \cup {NoSeed} /\ gen.spawn \in Nat /\ glob \in Nat
+          /\ (pc \notin {"new", "dead"} => gen.seed \in Seeds)
           /\ rd.st \in {"none", "ready", "iter", "done"}
-          /\ pc \in {"idle", "fr_centers", "fr_iter", "fr_for", "fr_next"}
+          /\ pc \in {"new", "dead", "idle", "fr_centers", "fr_iter", "fr_for", "fr_next"}
           /\ nops \in 0..MaxOps
-          /\ Len(hist) <= MaxOps
+          /\ Len(hist) <= MaxOps + 1
+          /\ (Len(hist) > 0 => hist[1].op = "new")
 
 Termination == <>Done
 
